@@ -326,7 +326,7 @@ def check_loops(ctx):
         ints = [-2, -1, 0, 1, 2, 5]
         bounds = [(a, o, e) for a in ints + [G.Sym("Register")] for o in ints + [G.Sym("Register")] for e in (-2, -1, 1, 2)] if fname == "_build_cmds_loop" else [(None, None, None)]
         for r in [n for n in A.body_nodes(fn) if isinstance(n, ast.Return)]:
-            tests = G.enclosing_tests(fn, r)
+            tests = G.path_conditions(fn, r)
             bad = None
             try:
                 for body in ([], [G.Sym("ICmd")], [G.Sym("ICmd"), G.Sym("ICmd")]):
